@@ -147,7 +147,8 @@ class ProcCompiler(P.FuncCompiler):
         P.FuncCompiler.__init__(self, mod, gen, node, lean_name, params)
         self.self_attrs = None
         self.mutates = list(ms.get('mutates', []))
-        self.callbacks = {k: {'args': [parse_type(a) for a in v['args']], 'mutates': list(v.get('mutates', []))}
+        self.callbacks = {k: {'args': [parse_type(a) for a in v['args']], 'mutates': list(v.get('mutates', [])),
+                              'returns': parse_type(v['returns']) if v.get('returns') else None}
                           for k, v in ms.get('callbacks', {}).items()}
         self.value_ret = None       # type of the value of a trailing `return e`
         self.used_callbacks = []
@@ -548,26 +549,60 @@ class ProcCompiler(P.FuncCompiler):
         if self.ms.get('loop'):
             # the method is one `for x in <list parameter>:` loop: the body is a definition of its own (`body`), the
             # method is `Py.forIn` over the list (evaluated once, by value)
-            if len(stmts) != 1 or not isinstance(stmts[0], ast.For) or stmts[0].orelse:
-                self.bad(self.node, 'a method declared as a loop must consist of one `for` statement')
-            lp = stmts[0]
-            if not (isinstance(lp.target, ast.Name) and isinstance(lp.iter, ast.Name) and lp.iter.id in self.params
-                    and prune(self.params[lp.iter.id])[0] == 'list'):
-                self.bad(lp, 'loop that is not `for name in <list parameter>`')
+            if not stmts or not isinstance(stmts[-1], ast.For) or stmts[-1].orelse:
+                self.bad(self.node, 'a method declared as a loop must end in one `for` statement')
+            lp = stmts[-1]
+            pre_items = [self.stmt(x) for x in stmts[:-1]]
             for n in ast.walk(lp):
                 if isinstance(n, (ast.Break, ast.Return)) or (isinstance(n, (ast.For, ast.While)) and n is not lp):
                     self.bad(n, 'break / return / nested loop inside the loop of a loop method')
-                if isinstance(n, ast.Name) and isinstance(n.ctx, ast.Store) and n.id == lp.iter.id:
-                    self.bad(n, 'the loop body assigns the list it iterates over')
-            ety = prune(self.params[lp.iter.id])[1]
-            first = self.set_local(lp.target.id, Ex('x', ety), lp)
-            btext, br = self.seq([first, self.flow(list(lp.body))])
-            self.aux.append(('body', btext, br, lp, ' (x : %s)' % P.lean_type(ety)))
-            call = '(body %sv x)' % ('self ' if self.recv == 'callbacks' else '')
-            if br:
-                head, hr = '(Py.forIn v.%s v (fun x v => %s))' % (lean_ident(lp.iter.id), call), True
+            selfarg = 'self ' if self.recv == 'callbacks' else ''
+            it = lp.iter
+            if (isinstance(lp.target, ast.Name) and isinstance(it, ast.Name) and it.id in self.params
+                    and prune(self.params[it.id])[0] == 'list'):
+                for n in ast.walk(lp):
+                    if isinstance(n, ast.Name) and isinstance(n.ctx, ast.Store) and n.id == it.id:
+                        self.bad(n, 'the loop body assigns the list it iterates over')
+                ety = prune(self.params[it.id])[1]
+                first = self.set_local(lp.target.id, Ex('x', ety), lp)
+                btext, br = self.seq([first, self.flow(list(lp.body))])
+                self.aux.append(('body', btext, br, lp, ' (x : %s)' % P.lean_type(ety)))
+                call = '(body %sv x)' % selfarg
+                if br:
+                    loop = ('(Py.forIn v.%s v (fun x v => %s))' % (lean_ident(it.id), call), True)
+                else:
+                    loop = ('(Py.forInPure v.%s v (fun x v => %s))' % (lean_ident(it.id), call), False)
+            elif (isinstance(lp.target, ast.Name) and lp.target.id in self.dropped and isinstance(it, ast.Call)
+                  and isinstance(it.func, ast.Name) and it.func.id == 'range' and 'range' not in self.names
+                  and len(it.args) == 1 and not it.keywords):
+                # `for _ in range(n):` — n evaluated once; a negative n gives no iteration
+                e = it.args[0]
+                if (isinstance(e, ast.Call) and isinstance(e.func, ast.Attribute) and isinstance(e.func.value, ast.Name)
+                        and e.func.value.id == 'self' and self.recv == 'callbacks' and e.func.attr in self.callbacks
+                        and self.callbacks[e.func.attr].get('returns') is not None):
+                    cb = self.callbacks[e.func.attr]
+                    if cb['mutates'] or e.keywords or len(e.args) != len(cb['args']):
+                        self.bad(e, 'value callback with unexpected arguments')
+                    if e.func.attr not in self.used_callbacks:
+                        self.used_callbacks.append(e.func.attr)
+                    args = [self.coerce(self.to_int(self.expr(a)), t, e) for a, t in zip(e.args, cb['args'])]
+                    nex = self.lift(args, lambda c: '(self.%s %s)' % (lean_ident(e.func.attr), ' '.join(c)), INT, result_raises=True)
+                else:
+                    nex = self.to_int(self.expr(e))
+                    if self.kind(nex, e) != 'int':
+                        self.bad(e, 'range() of a non-int')
+                btext, br = self.flow(list(lp.body))
+                if not br:
+                    self.bad(lp, 'range loop whose body cannot raise (not needed so far)')
+                self.aux.append(('body', btext, br, lp, ''))
+                call = '(body %sv)' % selfarg
+                if nex.raises:
+                    loop = ('(do let n ← %s; Py.forIn (List.range (Int.toNat n)) v (fun _ v => %s))' % (nex.code, call), True)
+                else:
+                    loop = ('(Py.forIn (List.range (Int.toNat %s)) v (fun _ v => %s))' % (nex.code, call), True)
             else:
-                head, hr = '(Py.forInPure v.%s v (fun x v => %s))' % (lean_ident(lp.iter.id), call), False
+                self.bad(lp, 'loop that is neither `for name in <list parameter>` nor `for _ in range(n)`')
+            head, hr = self.seq(pre_items + [loop])
         elif self.ms.get('split') and stmts:
             # every top-level statement becomes a definition of its own (`stmt_k : Locals → (Except Py.Exc) Locals`), the
             # method is their composition: lemmas about the generated code can then be stated statement by statement
@@ -675,6 +710,8 @@ class ProcCompiler(P.FuncCompiler):
             for nm in self.used_callbacks:
                 cb = self.callbacks[nm]
                 res = [P.lean_type(cb['args'][i], False) for i in cb['mutates']]
+                if cb.get('returns') is not None:
+                    res.append(P.lean_type(cb['returns'], False))
                 out.append('  %s : %s → Except Py.Exc (%s)' % (
                     lean_ident(nm), ' → '.join(P.lean_type(t, False) for t in cb['args']), ' × '.join(res)))
             out.append('')
@@ -883,6 +920,7 @@ _OPD_ARGS = ['rec:CoderState', 'opaque:BitOperator', 'rec:OperatorDescriptor']
 _ELT_ARGS = ['rec:CoderState', 'opaque:BitOperator', 'rec:ElementDescriptor']
 _MEM_ARGS = ['rec:CoderState', 'opaque:BitOperator', 'descr']
 _MEM_CB = {'args': _MEM_ARGS, 'mutates': [0, 1]}
+_WALK_CB = {'args': ['rec:CoderState', 'opaque:BitOperator', 'list[descr]'], 'mutates': [0, 1]}
 
 STATE_SPECS = {
     'coder': {
@@ -908,6 +946,11 @@ STATE_SPECS = {
             # translated in Gen/PyDescriptors.lean
             'ElementDescriptor': {'attrs': {'id': 'int', 'X': 'int', 'unit': 'str', 'nbits': 'int', 'scale': 'int', 'refval': 'int'},
                                   'doc': 'X is the property translated in Gen/PyDescriptors.lean'},
+            # the composite descriptors as their `process_*` methods see them (`n_repeats` is the property translated in
+            # Gen/PyDescriptors.lean)
+            'FixedReplicationDescriptor': {'attrs': {'id': 'int', 'n_repeats': 'int', 'members': 'list[descr]'}},
+            'DelayedReplicationDescriptor': {'attrs': {'id': 'int', 'members': 'list[descr]', 'factor': 'descr'}},
+            'SequenceDescriptor': {'attrs': {'id': 'int', 'members': 'list[descr]'}},
             # any descriptor, as `process_bitmap_definition` sees it
             'AnyDescriptor': {'attrs': {'id': 'int'}},
         },
@@ -945,6 +988,22 @@ STATE_SPECS = {
                     'process_numeric': {'args': _ELT_ARGS + ['int', 'pow10', 'int'], 'mutates': [0, 1]},
                     'process_numeric_of_new_refval': {'args': _ELT_ARGS + ['int', 'pow10', 'int'], 'mutates': [0, 1]},
                 }}),
+            # the composite descriptors: the recursive call of `process_members` is a callback (the loop theorem is the
+            # hypothesis of their theorems)
+            ('Coder', 'process_fixed_replication_descriptor', {
+                'self': 'callbacks', 'loop': True,
+                'params': {'state': 'rec:CoderState', 'bit_operator': 'opaque:BitOperator', 'descriptor': 'rec:FixedReplicationDescriptor'},
+                'mutates': ['state', 'bit_operator'], 'callbacks': {'process_members': _WALK_CB}}),
+            ('Coder', 'process_delayed_replication_descriptor', {
+                'self': 'callbacks', 'loop': True,
+                'params': {'state': 'rec:CoderState', 'bit_operator': 'opaque:BitOperator', 'descriptor': 'rec:DelayedReplicationDescriptor'},
+                'mutates': ['state', 'bit_operator'],
+                'callbacks': {'process_members': _WALK_CB, 'process_element_descriptor': _MEM_CB,
+                              'get_value_for_delayed_replication_factor': {'args': ['rec:CoderState'], 'mutates': [], 'returns': 'int'}}}),
+            ('Coder', 'process_sequence_descriptor', {
+                'self': 'callbacks',
+                'params': {'state': 'rec:CoderState', 'bit_operator': 'opaque:BitOperator', 'descriptor': 'rec:SequenceDescriptor'},
+                'mutates': ['state', 'bit_operator'], 'callbacks': {'process_members': _WALK_CB}}),
             # the member loop: the methods it dispatches to are callbacks here (the translated ones satisfy the
             # correspondences the theorems ask of these callbacks: C01_src_process_element_descriptor, …)
             ('Coder', 'process_members', {
